@@ -44,8 +44,22 @@ fn gen(plan_path: &str, outdir: &str) {
     // The builder may panic on a defective tree; that is not this tool's verdict to give.
     std::panic::set_hook(Box::new(|_| {}));
     for e in &entries {
-        let r = reference::compute(e);
-        let built = tables::build(e, &r);
+        // The real builder runs under a watchdog: a defective tree may make it loop forever, and that
+        // must not hang the check (the set is then reported as "did not build").
+        let (tx, rx) = std::sync::mpsc::channel();
+        let e2 = e.clone();
+        std::thread::spawn(move || {
+            let r = reference::compute(&e2);
+            let built = tables::build(&e2, &r);
+            let _ = tx.send((r, built));
+        });
+        let limit = std::time::Duration::from_secs(
+            std::env::var("VERIF_BUILD_TIMEOUT").ok().and_then(|s| s.parse().ok()).unwrap_or(120),
+        );
+        let (r, built) = match rx.recv_timeout(limit) {
+            Ok(x) => x,
+            Err(_) => (reference::compute(e), Err(format!("builder did not return within {} s", limit.as_secs()))),
+        };
         let mut rec = String::new();
         write!(rec, "{{\"name\":{},", jstr(&e.name)).unwrap();
         write!(rec, "\"variant\":{},", jstr(e.variant.name())).unwrap();
